@@ -34,6 +34,10 @@ def gen_plan(base_seed, i, tier):
         sim["faults"]["zombie_q"] = 0.0
     plan = {"property": "C13", "kind": "sweep", "rows": rows, "config": cfg, "sim": sim,
             "draws": [round(rng.random(), 4), rng.choice([round(rng.random(), 2), 1, 1e-6, 0.123456789, 0.999999, 0.5])], "max_t": 10 if tier == "quick" else 16}
+    if rng.random() < 0.3:
+        # the same thresholds once more on ONE Balancer object, set through its public attribute between calls
+        plan["same_object_order"] = rng.choice(["ascending", "descending", "shuffled"])
+        plan["same_object_seed"] = rng.getrandbits(16)
     if rng.random() < 0.2:
         # the scoring step itself fails at its k-th call: batches may be lost, but no returned row may escape the threshold
         plan["model_fault_calls"] = sorted({rng.randint(0, 3) for _ in range(2)})
@@ -127,6 +131,28 @@ def execute(plan):
         for inp, x, y in zip(rows_in, ra, rb):
             if y["solved"] and not x["solved"]:
                 vs.append(oracles.V("C13", "not_antitone", "antitone", "%s unsolved at threshold %r but solved at %r" % (inp, a, b)))
+    if plan.get("same_object_order") and base["rows"] is not None:
+        import random
+
+        runner.setup()
+        bal = runner.make_balancer(dict(plan["config"], threshold=0))
+        order = sorted(results)
+        if plan["same_object_order"] == "descending":
+            order.reverse()
+        elif plan["same_object_order"] == "shuffled":
+            random.Random(plan.get("same_object_seed", 0)).shuffle(order)
+        for t in order:
+            bal.confidence_threshold = t
+            r = runner.run_once({"rows": rows_in, "config": dict(plan["config"], threshold=t), "sim": plan["sim"]}, balancer=bal)
+            out["runs"] += 1
+            out["summary"].append(common.run_summary(r))
+            fresh = results[t]
+            if r["rows"] != fresh["rows"] or r["stats"] != fresh["stats"]:
+                k = next((i for i, (a, b) in enumerate(zip(r["rows"] or [], fresh["rows"] or [])) if a != b), 0)
+                diff = oracles.rows_equal((r["rows"] or [{}])[k] if r["rows"] else {}, (fresh["rows"] or [{}])[k] if fresh["rows"] else {}) if r["rows"] and fresh["rows"] else ["rows"]
+                vs.append(oracles.V("C13", "result_depends_on_earlier_threshold", ",".join(diff) or "stats", "threshold %r set on a Balancer that was used before with %s thresholds: row %d (%s) / stats differ from a fresh Balancer with that threshold: %r vs %r" % (
+                    t, plan["same_object_order"], k, rows_in[k] if k < len(rows_in) else None, (r["rows"] or [None] * (k + 1))[k] if r["rows"] else r["exc"], (fresh["rows"] or [None] * (k + 1))[k] if fresh["rows"] else fresh["exc"])))
+                break
     for k in plan.get("model_fault_calls") or []:
         for t in [x for x in ts if x > 0][:3] + [1.0]:
             cfg = dict(plan["config"])
